@@ -52,3 +52,22 @@ BASE_TRUSTED = [
     "constants translator tools/gen_constants.py (regex over src/backend.rs)",
     "dependencies modelled, tied by correspondence only: num-bigint, malachite, num-modular, borsh, sha2, rand",
 ]
+
+
+def script_for_exps(ctx, values, rng, pad=64):
+    """num-bigint only: a script whose successive gen_biguint_below(q) draws are exactly `values`
+    (each value < q, so no rejection). Malachite seeds are opaque: returns a random script."""
+    p, q, g = pq(ctx)
+    if not ctx.startswith("B"):
+        return script(rng, 32 * len(values) + pad)
+    bits = q.bit_length()
+    nwords = (bits + 31) // 32
+    rem = bits % 32
+    out = b""
+    for v in values:
+        words = [(v >> (32 * i)) & 0xFFFFFFFF for i in range(nwords)]
+        if rem:
+            words[-1] = (words[-1] << (32 - rem)) & 0xFFFFFFFF
+        for w in words:
+            out += w.to_bytes(4, "little")
+    return hexb(out + rng.randbytes(pad))
